@@ -483,6 +483,8 @@ pub(crate) struct DrawState {
     pub(crate) move_cursor: bool,
     /// Controls how the multi progress is aligned if some of its progress bars get removed, default is `Top`
     pub(crate) alignment: MultiProgressAlignment,
+    /// True if the previous draw left the cursor at the right edge of its last bar line
+    cursor_at_line_end: bool,
 }
 
 impl DrawState {
@@ -506,6 +508,12 @@ impl DrawState {
         } else {
             // Fork of console::clear_last_lines that assumes that the last line doesn't contain a '\n'
             let n = bar_count.as_usize();
+            if n == 0 && self.cursor_at_line_end && !self.lines.is_empty() {
+                // All lines of the previous draw are kept (finished bars that were dropped): the
+                // cursor still sits at the end of the last of them, so move to a fresh line
+                // instead of relying on the first new line to wrap.
+                term.write_line("")?;
+            }
             term.move_cursor_up(n.saturating_sub(1))?;
             for i in 0..n {
                 term.clear_line()?;
@@ -577,6 +585,9 @@ impl DrawState {
         }
 
         term.flush()?;
+        if !self.lines.is_empty() || bar_count.as_usize() > 0 {
+            self.cursor_at_line_end = matches!(self.lines.last(), Some(LineType::Bar(_)));
+        }
         *bar_count = real_height + shift;
 
         Ok(())
